@@ -36,6 +36,7 @@ package consistenthash
 //@   safety [C13]
 //
 //@ func (*ConsistentHash).FindInt32
+//@   perreturn
 //@   requires chInv(c)
 //@   pure
 //@   ensures [C13] (len(c.sortedKeys) == 0) == !result1
@@ -43,12 +44,14 @@ package consistenthash
 //@   safety [C13]
 //
 //@ func (*ConsistentHash).Find
+//@   perreturn
 //@   requires chInv(c)
 //@   pure
 //@   ensures [C13] (len(c.sortedKeys) == 0) == !result1
 //@   safety [C13]
 //
 //@ func (*ConsistentHash).Select
+//@   perreturn
 //@   requires chInv(c) && msg != nil
 //@   pure
 //@   ensures [C13] (len(c.sortedKeys) == 0) == (err != nil)
